@@ -100,7 +100,7 @@ class HTTP(BaseComponent):
             if isinstance(data, str):
                 data = data.encode(self._encoding)
 
-            if res.chunked:
+            if res.chunked and data:
                 buf = [
                     hex(len(data))[2:].encode(self._encoding),
                     b'\r\n',
@@ -109,7 +109,9 @@ class HTTP(BaseComponent):
                 ]
                 data = b''.join(buf)
 
-            self.fire(write(sock, data))
+            # an empty chunk would read as the last-chunk of a chunked body
+            if data:
+                self.fire(write(sock, data))
 
             if res.body and not res.done:
                 try:
